@@ -542,6 +542,10 @@ def _f_worker(args):
     pid, n, seed, corpus = args
     rng = random.Random(seed)
     cfgs = list(corpus) + [factory.gen_config(rng, with_fleet=True) if i % 3 else factory.gen_config_sc(rng) for i in range(n)]
+    if pid != "C14":
+        # factories with conveyor edges: the model has no conveyors, so these are run on the implementation only and
+        # judged by the oracle's clauses (conservation, timing, counters, accounting, crash freedom ...)
+        cfgs += [factory.gen_config_conv(rng) for _ in range(max(2, n // 8))]
     if pid == "C14":
         cfgs = [c for c in cfgs if any(e["kind"] == "fleet" for e in c["edges"])]
     if pid in ("C20", "C15"):
